@@ -33,8 +33,12 @@ type C17Case struct {
 	// Prime, when set, names another option set ("", "pg", "arrays", "pg+arrays") under which the very
 	// same query text is executed first (outcome ignored): what a text means depends on the options of
 	// the call at hand only, never on an earlier call with the same text
-	Prime   *string `json:"prime,omitempty"`
-	BSQuote bool    `json:"bsquote,omitempty"` // variant spells a quote inside a literal as \' (canonical: '')
+	Prime *string `json:"prime,omitempty"`
+	// FromMode (with Wrapped only): "" = FROM root.t; "unqualified" = FROM t (there is no such name next to
+	// `root`); "dual-star" = SELECT * FROM dual (the top level scope itself). Wrapped() must behave exactly like
+	// handing over {"root": input}, also when the input has a key `root` of its own (the generator adds one).
+	FromMode string `json:"from_mode,omitempty"`
+	BSQuote  bool   `json:"bsquote,omitempty"` // variant spells a quote inside a literal as \' (canonical: '')
 }
 
 var c17LitPieces = []string{"\"", "'", "`", "\\", "[", "]", "é", "日本", "a", " ", "[1,2]", "\"x\"", "\\\"", "]]", "[[", "''", "b", "😀", "\\\\", "ARRAY(", ")", ","}
@@ -124,6 +128,17 @@ func genC17(t *rapid.T) any {
 		c.Poison = rapid.SampledFrom([]string{"SELECT \"k\" FROM \"t\" WHERE \"s\" = 'bob\\", "SELECT \"k\\", "SELECT [1, [2 FROM \"t\"", "SELECT 1] FROM t", "SELECT 'abc\\", "SELECT \"a FROM t",
 			"SELECT ']' , [ FROM \"t\"", "SELECT \"x\" FROM \"nosuch\" WHERE", "SELECT `k` FROM `t` WHERE s = 'it''s \\"}).Draw(t, "poisontext")
 	}
+	if c.Wrapped && rapid.IntRange(0, 2).Draw(t, "wrapshape") == 0 {
+		c.FromMode = rapid.SampledFrom([]string{"", "", "unqualified", "dual-star"}).Draw(t, "frommode")
+		// the input may have a key `root` of its own
+		other := []any{}
+		for i, r := range pt.Tb.Rows {
+			if i%2 == 0 {
+				other = append(other, r)
+			}
+		}
+		c.Doc["root"] = map[string]any{"t": append(other, map[string]any{"k": -99.0, "s": "root-of-the-input"})}
+	}
 	if rapid.IntRange(0, 2).Draw(t, "prime") == 0 {
 		own := map[[2]bool]string{{false, false}: "", {true, false}: "pg", {false, true}: "arrays", {true, true}: "pg+arrays"}[[2]bool{c.PG, c.Arrays}]
 		var others []string
@@ -194,8 +209,11 @@ func genC17(t *rapid.T) any {
 func (c *C17Case) render(variant bool) string {
 	st := &sq.Style{Ident: "bt"}
 	from := "t"
-	if c.Wrapped {
+	if c.Wrapped && c.FromMode != "unqualified" {
 		from = "root.t"
+	}
+	if c.Wrapped && c.FromMode == "dual-star" {
+		return "SELECT * FROM dual"
 	}
 	if variant {
 		if c.DQ {
@@ -276,6 +294,9 @@ func checkC17(c *C17Case) Result {
 	res.Execs += 2
 	o := Opts{Wrapped: c.Wrapped, PG: c.PG, Arrays: c.Arrays}
 	res.Labels = append(res.Labels, "opts:"+o.String())
+	if _, own := c.Doc["root"]; own {
+		res.Labels = append(res.Labels, "wrapped:input-has-own-root-key", "wrapped:from-"+map[string]string{"": "root.t", "unqualified": "unqualified-name", "dual-star": "dual-star"}[c.FromMode])
+	}
 	if c.DQ {
 		res.Labels = append(res.Labels, "spelling:double-quoted-identifiers")
 	}
@@ -337,7 +358,7 @@ func checkC17(c *C17Case) Result {
 	}
 	// direct echo oracle for pure string-literal items
 	for _, it := range c.Items {
-		if it.Expr.K != "str" {
+		if it.Expr.K != "str" || (c.Wrapped && c.FromMode == "dual-star") {
 			continue
 		}
 		for _, r := range variant.Rows {
